@@ -17,6 +17,7 @@ pub mod c14;
 pub mod c15;
 pub mod c16;
 pub mod c17;
+pub mod c18;
 pub mod c19;
 pub mod c20;
 
@@ -39,6 +40,7 @@ pub fn property(id: &str) -> Option<Property> {
         "C15" => Some(c15::property()),
         "C16" => Some(c16::property()),
         "C17" => Some(c17::property()),
+        "C18" => Some(c18::property()),
         "C19" => Some(c19::property()),
         "C20" => Some(c20::property()),
         _ => None,
